@@ -1,11 +1,11 @@
 #!/bin/sh
 # Replays every pre-fix finding twice: against its pre-fix tree (hooks only, commit 1043068, or the
-# commit before its own fix for findings made later: F13 -> 44353dd; each must reproduce its
+# commit before its own fix for findings made later: F13 -> 44353dd, F14 -> 27c644f; each must reproduce its
 # recorded violation) and against /repo as it is now (each must be clean).
 W=/tmp/verif-prefix-repo
 [ -d "$W" ] || git -C /repo worktree add -q --detach "$W" 1043068 || exit 2
 for f in /verif/findings/*.replay.json; do
-    case "$(basename "$f")" in F13*) PRE=44353dd ;; *) PRE=1043068 ;; esac
+    case "$(basename "$f")" in F13*) PRE=44353dd ;; F14*) PRE=27c644f ;; *) PRE=1043068 ;; esac
     git -C "$W" checkout -q --detach "$PRE" || exit 2
     A=$(VERIF_REPO=$W /verif/check replay "$f" 2>/dev/null | grep -E "^VIOLATION|replay is clean|diverged" | head -1 | cut -c1-40)
     B=$(/verif/check replay "$f" 2>/dev/null | grep -E "^VIOLATION|replay is clean|diverged" | head -1 | cut -c1-40)
